@@ -213,3 +213,45 @@ Proof.
       assert (Hvt : v <> t) by (intro Ev; rewrite Ev in A; contradiction). assert (Hvu : v <> u) by (intro Ev; rewrite Ev in A; contradiction).
       assert (Go : gett w' v = gett w v) by (apply (ex_gett_other w t u a' b' v Hvt Hvu)). rewrite Go. auto.
 Qed.
+
+(* a step on table t that detaches every registered iterator of t (Clear and everything built on it)
+   is calm for every registered iterator: those of t are detached, the others are untouched *)
+Lemma calm_of_detaching : forall w t h' I' i, WF w -> t < length (tabs w) -> frame t (its w) I' ->
+  (forall j it, geti (its w) j = Some it -> iown it = Some t -> inoreg it = false ->
+      exists it', geti I' j = Some it' /\ iown it' = None /\ inoreg it' = false) ->
+  reg w i -> calm_rel w (put_ti w t h' I') i /\ reg (put_ti w t h' I') i.
+Proof.
+  intros w t h' I' i W Ht F D (it & Hg & R).
+  destruct (iown it) as [u|] eqn:O.
+  - destruct (Nat.eq_dec u t) as [->|Hut].
+    + destruct (D i it Hg O R) as (it' & Hg' & O' & R').
+      assert (Eo' : it_owner (put_ti w t h' I') i = None) by (unfold it_owner; rewrite its_put, Hg'; exact O').
+      destruct (detached_empty _ i Eo') as [El Ep].
+      split; [|exists it'; rewrite its_put; auto]. constructor.
+      * rewrite El. intros n [].
+      * intros H. contradiction.
+      * rewrite El. intros n _ [].
+      * rewrite Ep. intros n [].
+      * intros _. exact Eo'.
+    + assert (E : geti I' i = Some it) by (apply (fr_other _ _ _ F i it Hg); rewrite O; intro H; inversion H; contradiction).
+      split; [|exists it; rewrite its_put; auto]. apply calm_rel_same; [rewrite its_put, Hg; exact E|].
+      intros u' Ou. unfold it_owner in Ou. rewrite Hg, O in Ou. inversion Ou; subst u'. rewrite gett_put_other by congruence. auto.
+  - assert (E : geti I' i = Some it) by (apply (fr_other _ _ _ F i it Hg); rewrite O; discriminate).
+    split; [|exists it; rewrite its_put; auto]. apply calm_rel_same; [rewrite its_put, Hg; exact E|].
+    intros u' Ou. unfold it_owner in Ou. rewrite Hg, O in Ou. discriminate.
+Qed.
+
+(* Clear detaches every registered iterator, and a later frame keeps it detached *)
+Lemma clear_detaches : forall t dcap h I release, TL t h I ->
+  forall j it, geti I j = Some it -> iown it = Some t -> inoreg it = false ->
+    exists it', geti (snd (clear_tab dcap h I release)) j = Some it' /\ iown it' = None /\ inoreg it' = false.
+Proof.
+  intros t dcap h I release HTL j it Hg O R. unfold clear_tab. cbn [snd]. rewrite detach_all_eq.
+  destruct (tl_own _ _ _ HTL j it Hg O) as [A _]. specialize (A R).
+  rewrite map_its_in by (try apply (tl_nodup _ _ _ HTL); assumption). rewrite Hg. cbn [option_map].
+  exists (detach_iter h it). split; [reflexivity|split; [reflexivity|exact R]].
+Qed.
+
+Lemma detached_through_frame : forall t I1 I2 j it', frame t I1 I2 -> geti I1 j = Some it' -> iown it' = None ->
+  geti I2 j = Some it'.
+Proof. intros t I1 I2 j it' F Hg O. apply (fr_other _ _ _ F j it' Hg). rewrite O. discriminate. Qed.
